@@ -13,6 +13,90 @@ const MS = 1000000
 
 var Corpus = [][]string{}
 
+// Directed builds the episodes in which a reconfiguration hits a stage that has finished its own
+// work on a chunk and is blocked handing it to a busy neighbour (or to a sink that does not
+// accept), for every kind of first and second stage and every kind of reconfiguration; and the
+// ones in which a lossy toxic is reconfigured with data on both sides of it.
+func Directed() [][]string {
+	var out [][]string
+	type tx struct {
+		ty         string
+		a1, a2, a3 int64
+	}
+	firsts := []tx{{"latency", 20, 0, 0}, {"slicer", 64, 0, 1000}, {"bandwidth", 10, 0, 0}, {"noop", 0, 0, 0}, {"slow_close", 100, 0, 0}}
+	seconds := []tx{{"bandwidth", 1, 0, 0}, {"slicer", 2, 0, 50000}}
+	actions := []string{"upd1", "del1", "upd2", "del2", "add3", "reset"}
+	for _, f := range firsts {
+		for _, sc := range seconds {
+			for _, a := range actions {
+				ops := []string{"allowblock",
+					fmt.Sprintf("add up t1 %s %d %d %d 1", f.ty, f.a1, f.a2, f.a3),
+					fmt.Sprintf("add up t2 %s %d %d %d 1", sc.ty, sc.a1, sc.a2, sc.a3),
+					"newlink a up", "src a 1000", fmt.Sprintf("adv %d", 100*MS), "src a 10", fmt.Sprintf("adv %d", 300*MS)}
+				switch a {
+				case "upd1":
+					ops = append(ops, fmt.Sprintf("upd t1 %s %d %d %d 1", f.ty, f.a1, f.a2, f.a3))
+				case "del1":
+					ops = append(ops, "del t1")
+				case "upd2":
+					ops = append(ops, fmt.Sprintf("upd t2 %s %d %d %d 1", sc.ty, sc.a1, sc.a2, sc.a3))
+				case "del2":
+					ops = append(ops, "del t2")
+				case "add3":
+					ops = append(ops, "add up t3 latency 1 0 0 1")
+				case "reset":
+					ops = append(ops, "reset")
+				}
+				ops = append(ops, fmt.Sprintf("adv %d", 200*MS), "src a 10", "srceof a", "adv 30000000000", "adv 600000000000")
+				out = append(out, ops)
+			}
+		}
+		// the same with a receiver that does not accept: the last stage is blocked on the sink
+		for _, a := range []string{"upd1", "del1", "add3"} {
+			ops := []string{fmt.Sprintf("add up t1 %s %d %d %d 1", f.ty, f.a1, f.a2, f.a3), "newlink a up", "sink a 0",
+				"src a 100", "src a 10", fmt.Sprintf("adv %d", 150*MS)}
+			switch a {
+			case "upd1":
+				ops = append(ops, fmt.Sprintf("upd t1 %s %d %d %d 1", f.ty, f.a1, f.a2, f.a3))
+			case "del1":
+				ops = append(ops, "del t1")
+			case "add3":
+				ops = append(ops, "add up t3 latency 1 0 0 1")
+			}
+			ops = append(ops, "sink a 1", fmt.Sprintf("adv %d", 200*MS), "src a 10", "srceof a", "adv 30000000000", "adv 600000000000")
+			out = append(out, ops)
+		}
+	}
+	// limit_data: part of the budget used, then the limit is updated (raised, same, lowered),
+	// another toxic is reconfigured, more data follows
+	for _, n2 := range []int{12, 10, 8, 3} {
+		out = append(out, []string{"add up t1 limit_data 10 0 0 1", "newlink a up", "src a 6", fmt.Sprintf("adv %d", MS),
+			fmt.Sprintf("upd t1 limit_data %d 0 0 1", n2), "src a 10", fmt.Sprintf("adv %d", MS), "src a 10", "adv 30000000000"})
+	}
+	out = append(out, []string{"add up t1 limit_data 10 0 0 1", "add up t2 latency 5 0 0 1", "newlink a up", "src a 6", fmt.Sprintf("adv %d", 10*MS),
+		"upd t2 latency 1 0 0 1", "src a 3", fmt.Sprintf("adv %d", 10*MS), "del t2", "src a 10", "adv 30000000000"})
+	// timeout behind a stage that holds data: the timeout toxic is removed (or everything is
+	// reset) while a chunk sent during the timeout is still held in front of it
+	for _, T := range []int{0, 60000} {
+		for _, a := range []string{"del t2", "reset", "del t1"} {
+			for _, f := range []tx{{"latency", 500, 0, 0}, {"bandwidth", 1, 0, 0}, {"slicer", 1, 0, 50000}} {
+				out = append(out, []string{fmt.Sprintf("add up t1 %s %d %d %d 1", f.ty, f.a1, f.a2, f.a3), fmt.Sprintf("add up t2 timeout %d 0 0 1", T),
+					"newlink a up", "src a 4", fmt.Sprintf("adv %d", 900*MS), "src a 4", fmt.Sprintf("adv %d", 100*MS), a,
+					fmt.Sprintf("adv %d", 2000*MS), "src a 4", "adv 30000000000"})
+			}
+		}
+	}
+	// a timer-held stage whose input has ended, then reconfigured (the close must still arrive,
+	// once, after the full delay; nothing may be left behind)
+	for _, a := range []string{"upd t1 slow_close 1000 0 0 1", "add up t3 latency 0 0 0 1", "del t1", "reset"} {
+		out = append(out, []string{"add up t1 slow_close 1000 0 0 1", "newlink a up", "src a 5", fmt.Sprintf("adv %d", MS), "srceof a",
+			fmt.Sprintf("adv %d", 200*MS), a, fmt.Sprintf("adv %d", 500*MS), "adv 30000000000"})
+	}
+	// C14: independence of the per-connection decisions
+	out = append(out, []string{"indep 40"})
+	return out
+}
+
 type tgen struct {
 	ty  string
 	gen func(r *rng.R) (int64, int64, int64)
@@ -212,10 +296,12 @@ func Sweep(e *Engine, tier string, seed uint64, mode string, res *report.Result)
 			e.OracleOnly = false
 		}
 	}
-	for _, c := range Corpus {
+	for _, c := range append(append([][]string{}, Corpus...), Directed()...) {
 		if f := e.Run(c, res); f != nil {
 			report1(c, f)
-			return
+			if f.Kind == "disagreement" || len(res.Failures) >= 3 {
+				return
+			}
 		}
 	}
 	r := rng.New(seed)
